@@ -306,3 +306,45 @@ Proof.
       rewrite E2, name_eqb_refl in E1. discriminate.
     + apply IH. intros e' He'. apply Hc. right. exact He'.
 Qed.
+
+(* ---- TrimSuffix and bytes.ToLower ----
+   Whatever the folding function is, a name built as prefix ++ domain is recognised and the prefix returned: this is
+   the only way TrimSuffix is used on the round-trip paths (query name = labels ++ domain, answer name = query name). *)
+Lemma trim_suffix_gen_app lw pre dom : trim_suffix_gen lw (pre ++ dom) dom = Some pre.
+Proof.
+  unfold trim_suffix_gen. rewrite app_length.
+  destruct (length pre + length dom <? length dom)%nat eqn:H; [lia|].
+  replace (length pre + length dom - length dom)%nat with (length pre + 0)%nat by lia.
+  rewrite skipn_app, firstn_app_2. rewrite Nat.add_comm, Nat.add_sub. cbn [skipn firstn].
+  rewrite skipn_all2 by lia. cbn [app]. rewrite name_eqb_refl, app_nil_r. reflexivity.
+Qed.
+
+Lemma trim_suffix_is_gen n s : trim_suffix n s = trim_suffix_gen lower n s.
+Proof. reflexivity. Qed.
+
+(* so the ASCII model and the real folding agree on every name that occurs on those paths *)
+Lemma trim_suffix_agrees_on_app lw pre dom : trim_suffix_gen lw (pre ++ dom) dom = trim_suffix (pre ++ dom) dom.
+Proof. rewrite trim_suffix_gen_app, trim_suffix_app. reflexivity. Qed.
+
+(* and on all-ASCII names they agree for every folding that is `lower` on ASCII strings (bytes.ToLower's fast path) *)
+Lemma map_lw_ascii lw n : (forall l, ascii_label l = true -> lw l = lower l) -> ascii_name n = true -> map lw n = map lower n.
+Proof.
+  intros H. induction n as [|l r IH]; [reflexivity|]. cbn [ascii_name forallb map]. intros E.
+  apply andb_true_iff in E as [E1 E2]. rewrite (H l E1), IH by exact E2. reflexivity.
+Qed.
+
+Lemma ascii_name_skipn k n : ascii_name n = true -> ascii_name (skipn k n) = true.
+Proof.
+  revert n; induction k as [|k IH]; intros [|l r] H; cbn; auto. cbn [ascii_name forallb] in H.
+  apply andb_true_iff in H as [_ H]. apply IH. exact H.
+Qed.
+
+Lemma trim_suffix_gen_ascii lw n s :
+  (forall l, ascii_label l = true -> lw l = lower l) -> ascii_name n = true -> ascii_name s = true ->
+  trim_suffix_gen lw n s = trim_suffix n s.
+Proof.
+  intros H Hn Hs. unfold trim_suffix, trim_suffix_gen.
+  destruct (length n <? length s)%nat; [reflexivity|].
+  pose proof (map_lw_ascii lw _ H (ascii_name_skipn (length n - length s) n Hn)) as E1.
+  pose proof (map_lw_ascii lw s H Hs) as E2. unfold name, label, bytes, byte in *. rewrite E1, E2. reflexivity.
+Qed.
